@@ -208,6 +208,20 @@ fn pw_bits<T: Num>(p: &Piecewise<T>) -> Vec<u64> {
     o
 }
 
+// a reader that hands out at most `chunk` bytes per call (sockets, buffer boundaries): legal for io::Read
+struct Chunked<'a> {
+    data: &'a [u8],
+    chunk: usize,
+}
+impl<'a> borsh::io::Read for Chunked<'a> {
+    fn read(&mut self, buf: &mut [u8]) -> borsh::io::Result<usize> {
+        let n = buf.len().min(self.chunk).min(self.data.len());
+        buf[..n].copy_from_slice(&self.data[..n]);
+        self.data = &self.data[n..];
+        Ok(n)
+    }
+}
+
 fn report<V>(v: &V, bits: &dyn Fn(&V) -> Vec<u64>, prefail: bool) -> Vec<u64>
 where
     V: Serialize + serde::de::DeserializeOwned + borsh::BorshSerialize + borsh::BorshDeserialize,
@@ -244,6 +258,23 @@ where
         },
         Err(_) => 0,
     };
+    // the same bytes read back through readers that return short counts
+    let mut chunked_ok: u64 = 1;
+    if let Ok(buf) = borsh::to_vec(v) {
+        for chunk in [1usize, 5, 7, 33] {
+            let mut rd = Chunked { data: &buf, chunk };
+            match borsh::from_reader::<_, V>(&mut rd) {
+                Ok(back) => {
+                    if bits(&back) != orig {
+                        chunked_ok = 0;
+                    }
+                }
+                Err(_) => chunked_ok = 0,
+            }
+        }
+    } else {
+        chunked_ok = 3;
+    }
     let (bytes, borsh_ok): (Vec<u8>, u64) = match borsh::to_vec(v) {
         Ok(buf) => {
             let ok = match borsh::from_slice::<V>(&buf) {
@@ -261,6 +292,7 @@ where
     o.push(json_ok);
     o.push(cbor_ok);
     o.push(borsh_ok);
+    o.push(chunked_ok);
     o
 }
 
